@@ -85,7 +85,7 @@ def kani(P, u, prop):
 pub fn clone_h() {
     let a = oracle::mk(&mut KaniSrc);
     crate::m::ctr_reset();
-    let r = a.clone();
+    let r = Clone::clone(&a);
     let counts = crate::m::ctr_counts();
     assert!(oracle::same(&r, &oracle::clone_spec(&a)), "contract: clone() == field-wise clone / method of the same variant");
     assert!(counts == oracle::clone_counts(&a), "contract: each field's own Clone::clone runs exactly once (never with Copy)");
@@ -95,7 +95,7 @@ pub fn clone_h() {
 #[kani::proof]
 pub fn clone_from_h() {
     let mut a = oracle::mk(&mut KaniSrc); let b = oracle::mk(&mut KaniSrc);
-    a.clone_from(&b);
+    Clone::clone_from(&mut a, &b);
     assert!(oracle::same(&a, &oracle::clone_spec(&b)), "contract: after a.clone_from(&b), a == b.clone()");
     kani::cover!(true);
 }
@@ -103,8 +103,8 @@ pub fn clone_from_h() {
     u.kani_obls["clone_h"] = ("%s/%s/Clone::clone/contract" % (prop, P.pid), "clone() == clone_spec(a) and per-slot clone counts == expected")
     u.kani_obls["clone_from_h"] = ("%s/%s/Clone::clone_from/contract" % (prop, P.pid), "after a.clone_from(&b): a == clone_spec(b), for all (a, b)")
     u.replay.append('{ let a = oracle::mk(s); let b = oracle::mk(s);\n'
-                    '    crate::m::ctr_reset(); let r = a.clone(); let counts = crate::m::ctr_counts();\n'
+                    '    crate::m::ctr_reset(); let r = Clone::clone(&a); let counts = crate::m::ctr_counts();\n'
                     '    chk(out, "a.clone() == clone_spec(a)", oracle::same(&r, &oracle::clone_spec(&a)), true);\n'
                     '    chk(out, "clone counts", counts, oracle::clone_counts(&a));\n'
-                    '    let mut a2 = oracle::clone_spec(&a); a2.clone_from(&b);\n'
+                    '    let mut a2 = oracle::clone_spec(&a); Clone::clone_from(&mut a2, &b);\n'
                     '    chk(out, "after a.clone_from(&b): a == clone_spec(b)", oracle::same(&a2, &oracle::clone_spec(&b)), true); }')
